@@ -182,7 +182,7 @@ T4 = {
 
 # confirmed to break the property, but they also fail the baseline's stable TestServers subtests when the
 # server package is run alone in a private network namespace on an idle machine: not kept
-DROPPED = {'C04-1', 'C10-r2-2'}
+DROPPED = {'C04-1', 'C10-r2-2', 'C02-r4-1', 'C12-r4-1'}
 
 def main():
     os.makedirs(DST, exist_ok=True)
